@@ -1248,6 +1248,13 @@ class ProcessPoolExecutor(Executor):
         with self._processes_management_lock:
             if len(self._processes) != self._max_workers:
                 self._adjust_process_count()
+                # The executor manager thread may already be blocked in wait()
+                # on the sentinels of the processes that existed before this
+                # call (e.g. none, when all the workers exited on idle
+                # timeout): wake it up again so that it also watches the
+                # sentinels of the workers that were just spawned. The caller
+                # (submit) holds the shutdown_lock needed by wakeup().
+                self._executor_manager_thread_wakeup.wakeup()
             self._start_executor_manager_thread()
 
     def submit(self, fn, *args, **kwargs):
